@@ -512,9 +512,8 @@ def locks_replay_lines(sc, r, t="t1"):
             st = dict(sc["program"][i])
             if op == "insert":
                 # pessimistic: the driver buffers the insert and locks the key (statement-like); optimistic: buffer only
-                # (a failed pessimistic insert is discarded again by the driver: staging clean-up)
-                if not (info.get("pessimistic") and s.get("err")):
-                    lines.append("\t".join(["E", f"{i}a", "ins", "%x" % kidx[st["k"]]]))
+                # (a failed pessimistic insert is discarded again by the driver: staging clean-up, 'unmark' after the call)
+                lines.append("\t".join(["E", f"{i}a", "mark" if (info.get("pessimistic") and s.get("err")) else "ins", "%x" % kidx[st["k"]]]))
                 if not info.get("pessimistic"):
                     body = ["nop"]
                     lines.append("\t".join(["E", str(i)] + body))
@@ -546,7 +545,7 @@ def locks_replay_lines(sc, r, t="t1"):
                     lwc = max([c for c in others if c > s.get("for_update", 0)] or [s.get("for_update", 0) + 1])
             err = s.get("err")
             res = "ok" if not err else _FAIL.get(err, "other")
-            early = 1 if (err == "err:exists" and not sent) else 0
+            early = 1 if (err == "err:exists" and not sent) else 0      # observed; the model predicts it (compared in locks_compare)
             body = ["lock", hx(st["ks"]), *(str(int(bool(st.get(x)))) for x in ("rv", "ce", "loie")), "%x" % s.get("for_update", 0),
                     str(early), hx(sorted(set(locked))), hx(sorted(set(absent))), "%x" % lwc, res,
                     # expiry of previous-attempt locks: the observed choice (a request was sent) is fed to the model when the
@@ -572,7 +571,10 @@ def locks_replay_lines(sc, r, t="t1"):
             body = ["nop"]
         lines.append("\t".join(["E", str(i)] + body))
         exp.append({"i": i, "op": op, "bk": s["bk"], "rpc_keys": rpc_keys, "err": s.get("err"), "line": lines[-1],
-                    "t0": s.get("t0_ms"), "t1": s.get("t1_ms")})
+                    "t0": s.get("t0_ms"), "t1": s.get("t1_ms"),
+                    "early": (s.get("err") == "err:exists" and not rpc_keys) if rpc_keys is not None else None})
+        if op == "insert" and info.get("pessimistic") and s.get("err"):
+            lines.append("\t".join(["E", f"{i}b", "unmark", "%x" % kidx[sc["program"][i]["k"]]]))
     if str(info.get("result", "")).startswith("rolledback(final)"):
         lines.append("E\tfinal\trollback")
     lines.append("D" + ("\t" + hx(lostk) if lostk else ""))
@@ -603,6 +605,8 @@ def locks_compare(sc, r, out_lines, exp, t="t1"):
         bk = x["bk"]
         x["X"] = len(p) > 12 and p[12] == "X"
         x["mstore"] = dec(p[11]) if len(p) > 11 else []
+        if x.get("early") is not None and len(p) > 15 and p[15] in ("Y", "N") and (p[15] == "Y") != bool(x["early"]):
+            bad.append(f"step {x['i']} ({x['op']}): key-exists error before any request: model predicts {p[15] == 'Y'}, client {bool(x['early'])} (err {x['err']})")
         # keep-alive (ttlManager): running or not after every call; the bound key is kept for the heart-beat check
         if len(p) > 14:
             x["ka"] = "" if p[14] in ("U", "C") else kname.get(p[14], "?")
